@@ -265,9 +265,13 @@ def main():
             cc[cl[0]] += 1
             V.report(cl[0], cl[1], by_id[f["id"]], text="case=%s" % f["id"])
     kinds = collections.Counter(c.get("c", {}).get("kind", c["tag"]) for c in cases)
+    # the standard-type library as a state machine: parameters reach created pipes unchanged, the library changes by library calls only
+    from . import stdtype
+    stdcov = stdtype.part(V, "C19", tr, sd, ("library_changed", "library_not_as_requested", "other_library_entries_changed",
+                                             "row_differs_from_type", "retyped_row_differs", "unknown_event"))
     cov = {"states": mc.distinct, "transitions": mc.generated, "traces_validated_against_impl": len(cases),
            "samples": [cases[10], cases[-1]], "cases_by_kind": dict(kinds), "exhaustive": True,
-           "failing_clause_counts": dict(cc), "trace_spec_states": res.distinct,
+           "failing_clause_counts": dict(cc), "trace_spec_states": res.distinct, **stdcov,
            "evaluations": len(cases), "distinct_nontrivial": len(cases),
            "rule": "every case of GenLib.Cases (class x operation x argument shape x argument position), every property file of every "
                    "library fluid, every library pipe type; all cases are distinct and exercise a function call"}
